@@ -107,7 +107,7 @@ type tcase struct {
 	// state of the OUTPUT PATH before the judged export: "" / fresh, shorter, longer-bytes, longer-export, ro; viaCLI: written by cli.Flags.WriteScanResults
 	pstate string
 	viaCLI bool
-	pkgs           []pk
+	pkgs   []pk
 }
 
 func (p pk) purl() purl.PackageURL {
